@@ -10,6 +10,7 @@ CONSTANTS
   Entries = {"run", "call", "evaluate"}
   TracerStyles = {"none"}
   Threadeds = {FALSE}
+  Givens = {}
   Flags = {"lifo_inputs"}
 INVARIANT Restored
 INVARIANT Contained
